@@ -6,7 +6,7 @@
     relation has no cycle; equivalence is symmetric and recorded once; a parent link is backed by a listing; lists are
     well-typed.  [WF] (HeapProofs.v) is the observer's well-formedness of DESIGN.md (Appendix B), relative to liveness. *)
 From Coq Require Import List String Bool Arith Relations.
-From LC Require Import HeapDefs HeapBase HeapInv HeapOps HeapProofs HeapTotal HeapBad HeapFrame HeapWitness HeapLive HeapFrameAll HeapHistoryProofs.
+From LC Require Import HeapDefs HeapBase HeapInv HeapOps HeapProofs HeapTotal HeapBad HeapFrame HeapWitness HeapLive HeapFrameAll HeapHistoryProofs HeapReaddProofs.
 Import ListNotations.
 
 (** step_wf — every one of the 40 op constructors preserves the invariant, for every state, every structural-equality
@@ -274,6 +274,27 @@ Theorem C09_readd_breaks_inv : forall seq s K k c, K <> CComps -> Inv s -> recv 
   ~ Inv (gc (attach true seq s K k c)).
 Proof. exact HeapHistoryProofs.readd_breaks_inv. Qed.
 Print Assumptions C09_readd_breaks_inv.
+
+(** the premise is necessary for ALL FOUR add* forms, components included: a re-add that a caller can make (result not RIll)
+    is always performed (addComponent's self/ancestor test passes, its removal-from-old-parent step does nothing because the
+    old parent is the container itself) and breaks Inv in every state satisfying it; hence, for such calls, Inv is preserved
+    IF AND ONLY IF the call is not a re-add *)
+Theorem C09_step_readd_breaks_inv : forall seq s o s' r, Inv s -> readds s o = true ->
+  step true seq s o = Ok s' r -> r <> RIll -> ~ Inv s'.
+Proof. exact HeapReaddProofs.step_readd_breaks_inv. Qed.
+Print Assumptions C09_step_readd_breaks_inv.
+
+Theorem C09_add_preserves_iff : forall seq s o s' r, Inv s -> step true seq s o = Ok s' r -> r <> RIll ->
+  (Inv s' <-> readds s o = false).
+Proof. exact HeapReaddProofs.add_preserves_iff. Qed.
+Print Assumptions C09_add_preserves_iff.
+
+Example C09_readd_component_example :
+  exists s s' r, run true seq_conc (init U1) [AddComponent 0 (Some 1); AddComponent 1 (Some 2)] = Some s /\
+    Inv s /\ readds s (AddComponent 1 (Some 2)) = true /\
+    step true seq_conc s (AddComponent 1 (Some 2)) = Ok s' r /\ r = RBool true /\ ~ Inv s'.
+Proof. exact HeapReaddProofs.readd_component_example. Qed.
+Print Assumptions C09_readd_component_example.
 
 Example C09_history_exact_nonvacuous :
   (exists s', run true seq_conc (init U2) H2 = Some s' /\ Inv s') /\
